@@ -69,8 +69,9 @@ func (h HTTPConv) Do(ctx context.Context, req http.RequestGetter, opt conv.Optio
 	if h.proto != meta.EncodingThriftBinary {
 		panic("now only support binary protocol")
 	}
+	// the option must be set before NewBinaryConv derives the native flag word from it
+	opt.EnableHttpMapping = true
 	cv := NewBinaryConv(opt)
-	cv.opts.EnableHttpMapping = true
 	// dealing with http request
 	jbytes := req.GetBody()
 	// manage buffer
@@ -97,8 +98,9 @@ func (h HTTPConv) DoInto(ctx context.Context, req http.RequestGetter, buf *[]byt
 	if h.proto != meta.EncodingThriftBinary {
 		panic("now only support binary protocol")
 	}
+	// the option must be set before NewBinaryConv derives the native flag word from it
+	opt.EnableHttpMapping = true
 	cv := NewBinaryConv(opt)
-	cv.opts.EnableHttpMapping = true
 	// dealing with http request
 	jbytes := req.GetBody()
 	// write message header
